@@ -13,6 +13,8 @@ sys.path.insert(0, str(Path(__file__).resolve().parent.parent))
 
 
 def main():
+    import logging
+    logging.disable(logging.CRITICAL)
     prop = sys.argv[1]
     req = json.loads(sys.stdin.read())
     try:
